@@ -31,7 +31,7 @@ func init() {
 	}
 	Registry["C15"] = &Check{
 		Scenarios: c15Scenarios,
-		Rule: "Server.Serve with three connections plus a fourth offered after the fault; accept script: every placement of <=2 temporary accept errors among the offers (temporary errors alternate between temporary-only, like EMFILE, and temporary-and-timeout, like EAGAIN); connection A suffers one fault from {handler panic (raised in the handler itself or, at even positions, 80 calls below it), undecodable input (by position: a header naming an unknown command with trailing bytes / a complete message whose AVP Length overruns it / stray octets behind the last AVP), disconnect in the middle of a message} at every position 1..3 of its three-message sequence; connections B, C and D exchange two request/answer pairs each with bodies that name their connection (the handler checks that the body belongs to the header); after A's fault the application registers a further handler on the running ServeMux, and the first handler of D also writes to A's (failed) diam.Conn, which must simply return an error; C and D are offered only after that, and C's first message is held inside its body until D has been served completely (so a read buffer shared across connections is overwritten); every ordering of environment steps, timers and blocking hand-overs at preemption bound 0 (quick: each accept placement with three of the nine fault/position pairs; thorough: the full product, and preemption bound 1 for the placement without accept errors); back-off sleeps run on the virtual clock. Four scenarios put 9, 10, 12 and 40 consecutive temporary accept errors between two connections. One scenario accepts a connection as TLS whose peer sends 7 bytes of a handshake record and falls silent (later connections must be accepted and served). One scenario accepts a connection as TLS while its peer sends plain Diameter (the handshake fails: the transport must be closed, the other connection served). Three scenarios (bound 1 / 2) put the fault {panic, undecodable header, cut} on a connection whose peer has stopped reading while the handler of a healthy connection is blocked inside a Write to it: the faulty transport is closed all the same, the blocked handler is released with an error and its connection goes on being served. Two scenarios use an application Handler that implements ErrorReporter itself and panics in Error (undecodable input / cut message on A). Five scenarios (bound 0 / 1) make the faulty connection a multistream (SCTP) association {handler panic, undecodable header, association ending inside a header / inside a body by EOF / by reset}. A runtime fatal error (unlock of an unlocked mutex) is modelled as unrecoverable and reported. Three further scenarios (preemption bound 1, thorough 2) put the fault at the third message of a connection whose first handler has requested CloseNotify, so that the notifier goroutine is running when the connection fails.",
+		Rule: "Faults (undecodable input, EOF inside a message, handler panic) on an accepted connection whose transport reports no peer address (RemoteAddr() == nil) next to a healthy one. Server.Serve with three connections plus a fourth offered after the fault; accept script: every placement of <=2 temporary accept errors among the offers (temporary errors alternate between temporary-only, like EMFILE, and temporary-and-timeout, like EAGAIN); connection A suffers one fault from {handler panic (raised in the handler itself or, at even positions, 80 calls below it), undecodable input (by position: a header naming an unknown command with trailing bytes / a complete message whose AVP Length overruns it / stray octets behind the last AVP), disconnect in the middle of a message} at every position 1..3 of its three-message sequence; connections B, C and D exchange two request/answer pairs each with bodies that name their connection (the handler checks that the body belongs to the header); after A's fault the application registers a further handler on the running ServeMux, and the first handler of D also writes to A's (failed) diam.Conn, which must simply return an error; C and D are offered only after that, and C's first message is held inside its body until D has been served completely (so a read buffer shared across connections is overwritten); every ordering of environment steps, timers and blocking hand-overs at preemption bound 0 (quick: each accept placement with three of the nine fault/position pairs; thorough: the full product, and preemption bound 1 for the placement without accept errors); back-off sleeps run on the virtual clock. Four scenarios put 9, 10, 12 and 40 consecutive temporary accept errors between two connections. One scenario accepts a connection as TLS whose peer sends 7 bytes of a handshake record and falls silent (later connections must be accepted and served). One scenario accepts a connection as TLS while its peer sends plain Diameter (the handshake fails: the transport must be closed, the other connection served). Three scenarios (bound 1 / 2) put the fault {panic, undecodable header, cut} on a connection whose peer has stopped reading while the handler of a healthy connection is blocked inside a Write to it: the faulty transport is closed all the same, the blocked handler is released with an error and its connection goes on being served. Two scenarios use an application Handler that implements ErrorReporter itself and panics in Error (undecodable input / cut message on A). Five scenarios (bound 0 / 1) make the faulty connection a multistream (SCTP) association {handler panic, undecodable header, association ending inside a header / inside a body by EOF / by reset}. A runtime fatal error (unlock of an unlocked mutex) is modelled as unrecoverable and reported. Three further scenarios (preemption bound 1, thorough 2) put the fault at the third message of a connection whose first handler has requested CloseNotify, so that the notifier goroutine is running when the connection fails.",
 		Assume: []string{"data-race freedom between visible operations (audited separately with -race)"},
 		QuickBudget: 150, ThoroughBudget: 2400,
 	}
@@ -610,6 +610,61 @@ func c15Scenarios(tier string) []*Scenario {
 			b = 2
 		}
 		out = append(out, &Scenario{Name: "faults/closenotify-active/" + fault + "@3", Body: srvBody(o), Check: check, Bound: b, Horizon: 20 * time.Second, Weight: 5,
+			Outcome: func(s *vs.Sched) string { return fmt.Sprintf("events=%d end=%v", len(srvSt.events), s.EndTime) }})
+	}
+	// the faulty connection's transport does not know its peer's address (RemoteAddr() == nil, as a
+	// transport that looks it up lazily reports once the peer is gone)
+	for _, fault := range []string{"garbage", "cut", "panic"} {
+		fault := fault
+		o := srvOpts{names: []string{"A", "B"}, nmsg: 2, pattern: map[string]string{"B": "each"}, panicAt: map[string]int{}, reports: true}
+		if fault == "panic" {
+			o.panicAt["A"] = 1
+		}
+		o.fault = func(name string, c *vnet.Conn, ci int) bool {
+			if name != "A" {
+				return false
+			}
+			c.NilRemote = true
+			switch fault {
+			case "panic":
+				c.Deliver(srvReq(ci, 0))
+			case "garbage":
+				c.Deliver(c15Garbage(1, uint32(ci+1)))
+			case "cut":
+				m := srvReq(ci, 0)
+				c.Deliver(m[:len(m)-7])
+				c.PeerEOF()
+			}
+			return true
+		}
+		check := func(s *vs.Sched) string {
+			st := srvSt
+			v, handled := srvAnalyse(st, o.names)
+			if handled["B"] != 2 || fmt.Sprint(answersOn(st.conns["B"])) != "[1 2]" {
+				v = append(v, fmt.Sprintf("healthy connection B: %d of 2 requests handled, answers %v", handled["B"], answersOn(st.conns["B"])))
+			}
+			if st.conns["B"].Closed {
+				v = append(v, "healthy connection B was closed")
+			}
+			if !st.conns["A"].Closed {
+				v = append(v, "the faulty connection's transport was not closed")
+			}
+			if st.served {
+				v = append(v, "Serve returned")
+			}
+			if st.lis.Closed {
+				v = append(v, "the listener was closed")
+			}
+			for _, p := range s.Panics() {
+				v = append(v, "panic escaped (an unrecovered panic in a library goroutine ends the process): "+p)
+			}
+			return strings.Join(v, " | ")
+		}
+		b := 1
+		if tier == "thorough" {
+			b = 2
+		}
+		out = append(out, &Scenario{Name: "faults/peer-address-unknown/" + fault + "@1", Body: srvBody(o), Check: check, Bound: b, Horizon: 20 * time.Second, Weight: 5,
 			Outcome: func(s *vs.Sched) string { return fmt.Sprintf("events=%d end=%v", len(srvSt.events), s.EndTime) }})
 	}
 	// the package defaults: connection A was handed to diam.NewConn with a nil handler and a nil
